@@ -825,7 +825,7 @@ func (e *Engine) solveAll(obls []*Obl) {
 	}
 	wg.Wait()
 	// second chance for proof obligations that merely ran out of time while everything was being solved at once: one
-	// at a time, on an otherwise idle machine, with three times the budget. A definite answer (sat / unsat) is never
+	// at a time (at most four), on an otherwise idle machine, with three times the budget. A definite answer (sat / unsat) is never
 	// retried; a timeout that persists is reported as before. (GOVC_NO_RETRY=1 switches this off.)
 	if os.Getenv("GOVC_NO_RETRY") == "" {
 		n := 0
@@ -833,7 +833,7 @@ func (e *Engine) solveAll(obls []*Obl) {
 			if o.Cover || o.Stale != "" || (o.Result.Status != "timeout" && o.Result.Status != "unknown") || len(o.Insts) == 0 || e.noRetry[o.Name] {
 				continue
 			}
-			if n >= 12 {
+			if n >= 4 {
 				break // a broken tree fails many obligations: do not spend minutes re-trying all of them
 			}
 			n++
